@@ -15,6 +15,15 @@ events, a second restart and the audit; boundary scenarios (crash right after a 
 two crashes in a row, clock collisions); random histories over the whole alphabet.
 """
 import json
+
+
+def _no_constant(name):
+    raise ValueError('%s is not JSON' % name)
+
+
+def strict_loads(text):
+    """JSON as RFC 8259 defines it: the tokens Infinity, -Infinity and NaN (which Python's decoder accepts) are refused"""
+    return json.loads(text, parse_constant=_no_constant)
 import os
 import subprocess
 
@@ -74,7 +83,7 @@ class OwnDriver(object):
         line = self.p.stdout.readline()
         if not line:
             raise RuntimeError('msglog driver died on %r' % (req,))
-        return json.loads(line)
+        return strict_loads(line)
 
     def close(self):
         try:
@@ -444,6 +453,16 @@ def protocol_integration(res):
                     pool[key] = mark + _st.pack('!HB', len(body) + 19, 2) + body
                     script.append(('chunk', key))
                     n += 1
+        # values a decoder turns into floats (BGP-LS bandwidths: IEEE 754 bit patterns from the wire, infinities and NaN included)
+        for tlv_type in (1089, 1090, 1091):
+            for bits in ('7f800000', 'ff800000', '7fc00000', '00000000', '4b189680'):
+                val = bytes.fromhex(bits) * (8 if tlv_type == 1091 else 1)
+                blk = _st.pack('!HH', tlv_type, len(val)) + val
+                attr = bytes([0x80, 29, len(blk)]) + blk
+                body = _st.pack('!H', 0) + _st.pack('!H', len(attr)) + attr
+                key = 'lsfloat:%d:%s' % (tlv_type, bits)
+                pool[key] = mark + _st.pack('!HB', len(body) + 19, 2) + body
+                script.append(('chunk', key))
         script += [('chunk', 'keepalive'), ('chunk', 'notif_cease'), ('lost', 0)]
         trace = []
         msgdir = os.path.join(root, '10.0.0.2', 'msg')
@@ -470,7 +489,7 @@ def protocol_integration(res):
                                  {'suite': 'msglog', 'integration': trace}, key='integration-broken-line')
             for n, ln in enumerate(lines[seen:], start=seen + 1):
                 try:
-                    obj = json.loads(ln.decode('utf-8'))
+                    obj = strict_loads(ln.decode('utf-8'))
                     ok = isinstance(obj, dict) and set(obj) == {'t', 'seq', 'type', 'msg'} and obj['seq'] == n
                 except ValueError:
                     ok = False
